@@ -1912,3 +1912,8 @@ for _p in ("C09", "C03", "C16"):
     PROPS[_p]["fams"] = PROPS[_p]["fams"] + [("fam_negative_cts_av", 60, 2000)]
 for _p in ("C12", "C18", "C16"):
     PROPS[_p]["fams"] = PROPS[_p]["fams"] + [("fam_ctimes", 150, 5000)]
+for _p in ("C03", "C04", "C16"):
+    PROPS[_p]["fams"] = PROPS[_p]["fams"] + [("fam_subtick", 80, 3000)]
+for _p in ("C04", "C05"):
+    PROPS[_p]["fams"] = PROPS[_p]["fams"] + [("fam_audio_vs_first_video", 60, 2000)]
+PROPS["C07"]["fams"] = PROPS["C07"]["fams"] + [("fam_reject_matrix", 120, 3000)]
